@@ -57,7 +57,7 @@ Record alg (S : Type) := mkAlg {
   has_edge : S -> nat -> nat -> nat -> bool;            (* layer, u, v ; false if the layer is absent *)
   p_add_node : nat -> attrs -> S -> S;                  (* add to master and every layer / update attrs *)
   p_del_node : nat -> S -> S;                           (* with incident edges of every layer *)
-  p_ins_edge : sel -> nat -> nat -> attrs -> S -> S;    (* into the selected existing layers *)
+  p_ins_edge : sel -> nat -> nat -> attrs -> S -> S;    (* into the selected existing layers; endpoints must be nodes *)
   p_del_edge : sel -> nat -> nat -> S -> S;
   p_clear : sel -> S -> S;
   p_add_layer : nat -> kind -> S -> S;                  (* empty layer on the current nodes; no-op if the name exists *)
@@ -198,8 +198,11 @@ Definition c_del_node (n : nat) (s : mstate) : mstate :=
        (map (fun y => mkLay (lname y) (lkind y) (filter (fun m => negb (Nat.eqb n m)) (lnodes y))
                             (filter (fun e => negb (Nat.eqb n (eu e)) && negb (Nat.eqb n (ev e))) (ledges y)))
             (layers s)) (gattrs s).
+(* an edge can only join nodes of the graph (every caller adds the endpoints first) *)
 Definition c_ins_edge (t : sel) (u v : nat) (a : attrs) (s : mstate) : mstate :=
-  map_layers (on_sel t (fun y => ins_edge (lkind y) u v a (ledges y))) s.
+  if node_mem u (nodes s) && node_mem v (nodes s)
+  then map_layers (on_sel t (fun y => ins_edge (lkind y) u v a (ledges y))) s
+  else s.
 Definition c_del_edge (t : sel) (u v : nat) (s : mstate) : mstate :=
   map_layers (on_sel t (fun y => del_edge (lkind y) u v (ledges y))) s.
 Definition c_clear (t : sel) (s : mstate) : mstate := map_layers (on_sel t (fun _ => [])) s.
@@ -253,49 +256,65 @@ Definition q_und (s : mstate) (u v : nat) : bool :=
 (* to_directed: Dir layers contribute u->v, Und layers both directions (= has_edge "any") *)
 Definition q_dir (s : mstate) (u v : nat) : bool := q_has_edge_any s u v.
 
-(* ------------------------------------------------------------------ observation of one object over the universe 0..N-1 *)
-Definition AKEYS := [0; 1; 2].
+(* ------------------------------------------------------------------ observation of one object over the universe 0..N-1
+   compact encoding (the harness packs the answers of the real object the same way):
+     boolean row over 0..N-1 -> one number (bit i = entry i);  attribute dict -> acode (keys 0,1; values 0..3);
+     optional attribute dict -> 0 absent / 1 + acode *)
 Definition LNAMES := [0; 1; 2; 3].
-Definition canon (a : attrs) : sx := L (map (fun k => of_option I (alookup k a)) AKEYS).
-Definition tbl (N : nat) (f : nat -> nat -> sx) : sx :=
-  L (map (fun u => L (map (fun v => f u v) (seq 0 N))) (seq 0 N)).
-Definition row (N : nat) (f : nat -> sx) : sx := L (map f (seq 0 N)).
+Definition pack (bs : list bool) : nat := fold_right (fun b acc => b2n b + 2 * acc) 0 bs.
+Definition brow (N : nat) (f : nat -> bool) : nat := pack (map f (seq 0 N)).
+Definition btbl (N : nat) (f : nat -> nat -> bool) : sx := L (map (fun u => I (brow N (f u))) (seq 0 N)).
+Definition ntbl (N : nat) (f : nat -> nat -> nat) : sx :=
+  L (flat_map (fun u => map (fun v => I (f u v)) (seq 0 N)) (seq 0 N)).
+Definition nrow (N : nat) (f : nat -> nat) : sx := L (map (fun n => I (f n)) (seq 0 N)).
+Definition o2n (o : option nat) : nat := match o with None => 0 | Some v => Datatypes.S v end.
+Definition acode (a : attrs) : nat := o2n (alookup 0 a) + 5 * o2n (alookup 1 a).
+Definition ocode (o : option attrs) : nat := match o with None => 0 | Some a => Datatypes.S (acode a) end.
 Definition per_layer (s : mstate) (f : lay -> sx) : sx :=
   L (map (fun l => match find_layer l (layers s) with Some y => L [f y] | None => L [] end) LNAMES).
 Definition kind_code (k : kind) : nat := match k with Und => 0 | Dir => 1 end.
 Definition outcome_code (r : outcome) : nat := match r with Ok => 0 | Either => 1 | Err => 2 end.
-Definition present_nodes (N : nat) (s : mstate) (f : nat -> sx) : sx :=
-  row N (fun n => if c_has_node s n then L [f n] else L []).
+Definition both (s : mstate) (u v : nat) : bool := c_has_node s u && c_has_node s v.
+(* get_edge_data(u,v)[l]: 0 key absent (no such layer) / 1 None / 2 a dict ; base-3 number over the four layer names *)
+Definition ged_code (s : mstate) (u v : nat) : nat :=
+  fold_right (fun l acc => match find_layer l (layers s) with
+                           | None => 0
+                           | Some y => Datatypes.S (b2n (q_has_edge s l u v))
+                           end + 3 * acc) 0 LNAMES.
 
-Definition obs (N : nat) (s : mstate) : sx :=
-  L [ (* 0 nodes(data=True) *)
-      row N (fun n => of_option canon (node_attrs n (nodes s)));
-      (* 1 graph attrs *)
-      canon (gattrs s);
-      (* 2 layers: kind, node flags of the layer, edge table with attrs (Und: symmetric) — also edges() and adj *)
-      per_layer s (fun y => L [I (kind_code (lkind y)); row N (fun n => of_bool (memb n (lnodes y)));
-                               tbl N (fun u v => of_option canon (edge_attrs (lkind y) (ledges y) u v))]);
-      (* 3 has_edge(u,v,l) *)
-      per_layer s (fun y => tbl N (fun u v => of_bool (q_has_edge s (lname y) u v)));
-      (* 4 has_edge(u,v) any *)
-      tbl N (fun u v => of_bool (q_has_edge_any s u v));
-      (* 5 number_of_edges() ; 6 number_of_edges(edge_type=l) ; 7 number_of_edges(u,v,l) ; 8 number_of_edges(u,v) *)
-      I (q_noe s);
-      per_layer s (fun y => I (q_noe_layer y));
-      per_layer s (fun y => tbl N (fun u v => I (q_noe_uv s (lname y) u v)));
-      tbl N (fun u v => I (q_noe_uv_all s u v));
-      (* 9 size() ; 10 size(edge_type=l) *)
-      I (q_size s);
-      per_layer s (fun y => I (q_size_layer y));
-      (* 11 neighbors(n) for present n *)
-      present_nodes N s (fun n => row N (fun m => of_bool (q_und s n m)));
-      (* 12 degree()[l][n] *)
-      per_layer s (fun y => present_nodes N s (fun n => I (q_degree y n)));
-      (* 13 get_edge_data(u,v): per layer name absent / None / dict *)
-      tbl N (fun u v => per_layer s (fun y => of_bool (q_has_edge s (lname y) u v)));
-      (* 14 to_undirected: nodes, edges ; 15 to_directed: nodes, edges *)
-      L [row N (fun n => of_bool (c_has_node s n)); tbl N (fun u v => of_bool (q_und s u v))];
-      L [row N (fun n => of_bool (c_has_node s n)); tbl N (fun u v => of_bool (q_dir s u v))] ].
+(* the raw state: 0 nodes(data=True) ; 1 graph attrs ; 2 per layer: kind, node set of the layer, edge table with attrs
+   (Und: symmetric) — the table is also what edges(data=True) and adj must show *)
+Definition obs_state (N : nat) (s : mstate) : list sx :=
+  [ nrow N (fun n => ocode (node_attrs n (nodes s)));
+    I (acode (gattrs s));
+    per_layer s (fun y => L [I (kind_code (lkind y)); I (brow N (fun n => memb n (lnodes y)));
+                             ntbl N (fun u v => ocode (edge_attrs (lkind y) (ledges y) u v))]) ].
+
+Definition obs_queries (N : nat) (s : mstate) : list sx :=
+  [ (* 3 has_edge(u,v,l) ; 4 has_edge(u,v) *)
+    per_layer s (fun y => btbl N (fun u v => q_has_edge s (lname y) u v));
+    btbl N (fun u v => q_has_edge_any s u v);
+    (* 5 number_of_edges() ; 6 number_of_edges(edge_type=l) ; 7 number_of_edges(u,v,l) ; 8 number_of_edges(u,v)
+       (u, v present; 0 otherwise: networkx raises KeyError for an absent u, not asked) *)
+    I (q_noe s);
+    per_layer s (fun y => I (q_noe_layer y));
+    per_layer s (fun y => btbl N (fun u v => both s u v && Nat.eqb (q_noe_uv s (lname y) u v) 1));
+    ntbl N (fun u v => if both s u v then q_noe_uv_all s u v else 0);
+    (* 9 size() ; 10 size(edge_type=l) *)
+    I (q_size s);
+    per_layer s (fun y => I (q_size_layer y));
+    (* 11 neighbors(n), present n: 1 + packed row *)
+    nrow N (fun n => if c_has_node s n then Datatypes.S (brow N (fun m => q_und s n m)) else 0);
+    (* 12 degree()[l][n], present n: 1 + degree *)
+    per_layer s (fun y => nrow N (fun n => if c_has_node s n then Datatypes.S (q_degree y n) else 0));
+    (* 13 get_edge_data(u,v) *)
+    ntbl N (fun u v => ged_code s u v);
+    (* 14 to_undirected: nodes, edges ; 15 to_directed: nodes, edges *)
+    L [I (brow N (c_has_node s)); btbl N (fun u v => q_und s u v)];
+    L [I (brow N (c_has_node s)); btbl N (fun u v => q_dir s u v)] ].
+
+Definition obs (N : nat) (full : bool) (s : mstate) : sx :=
+  L (obs_state N s ++ (if full then obs_queries N s else [])).
 
 (* ------------------------------------------------------------------ wire format *)
 Definition sx_attrs (s : sx) : attrs := sx_pairs s.
@@ -325,12 +344,18 @@ Definition sx_op (s : sx) : nat * op :=
    | _ => Subgraph (sx_nats (a 0))
    end).
 
-(* observations after every op: L [ L [outcome; L [obs of every live object]] ; ... ] *)
+(* observations after every op: L [ L [outcome; L [obs of every live object]] ; ... ]
+   every query is asked of the object the op was applied to and of a newly allocated object; of the other live
+   objects only the raw state is observed (their queries were asked when they were last touched) *)
+Definition touched (h : nat * op) (n_before i : nat) : bool :=
+  Nat.eqb i (fst h) || negb (Nat.ltb i n_before).
 Fixpoint trace (N : nat) (st : list mstate) (h : list (nat * op)) : list sx :=
   match h with
   | [] => []
   | x :: t => let r := step CA st x in
-              L [I (outcome_code (snd r)); L (map (obs N) (fst r))] :: trace N (fst r) t
+              L [I (outcome_code (snd r));
+                 L (map (fun p => obs N (touched x (length st) (fst p)) (snd p))
+                        (combine (seq 0 (length (fst r))) (fst r)))] :: trace N (fst r) t
   end.
 
 (* run_case: L [I cls; I N; L ops] *)
